@@ -369,7 +369,8 @@ def kf_assign_after_def(w: Dict[str, Any]) -> bool:
             return False
         survivors.add(j)
     if not survivors:
-        return False
+        # (upper-case names: the constant handling gives the kept property the kind of a variable, so only the docstring shows it)
+        return bool(diffs) and not rest and all(d.get("what") == "attribute docstring" and shape(d["scope"], d["name"]) for d in diffs)
 
     def under(s: int) -> bool:
         while s:
